@@ -340,7 +340,13 @@ class C17(Prop):
     id = "C17"
     driver = "C17"
     lean_modules = ["Pfb.C17.Props"]
-    theorems = []
+    theorems = ["Pfb.C17." + t for t in (
+        "C17_chain_first", "C17_failing_frame_first",
+        "C17_selection_none", "C17_selection_num", "C17_selection_list", "C17_selection_range",
+        "C17_selection_keys", "C17_selection_unique_frames", "C17_selection_total",
+        "C17_filter_partial", "C17_filter_fixed", "C17_filter_D7_witness", "C17_skip_independent",
+        "C17_mode", "C17_mode_existing",
+        "C17_reader_variable_at", "C17_reader_variable_all", "C17_reader_metadata", "C17_end_to_end")]
     anchors = [
         ("lib/python/pyflyby/_saveframe.py", "_validate_frames"),
         ("lib/python/pyflyby/_saveframe.py", "_get_all_matching_frames"),
@@ -364,10 +370,64 @@ class C17(Prop):
     thorough_cases = 30000
     quick_deadline_s = 60
     thorough_deadline_s = 600
-    rule = ""
-    trusted_base = []
-    assumptions = []
-    families = {}
+    rule = ("call stacks produced by real generated code raising real exceptions (harness/gen_c17.py: depth 1-8, recursion, "
+            "shared relay functions, methods, closures, lambdas, generator expressions, class bodies, module level, "
+            "raise-from / implicit context / from None / finally / with / bare re-raise) x selectors (none, count, single, "
+            "list, range, open range, partial file:line:function patterns, malformed) x include/exclude lists (valid, invalid, "
+            "empty, wrong types) x forced-unpicklable subsets x umasks x pre-existing file, through pyflyby.saveframe, the "
+            "script-mode validation + internal save function, and bin/saveframe run in-process; plus a systematic scope on one "
+            "fixed chained stack (every pattern of every frame, ranges between them, filter forms, umasks); a case is "
+            "non-trivial when at least one frame was saved; distinct by program+arguments")
+    trusted_base = ["`re` is modelled, not verified: the outcome of re.search per (regex, file name) is an input of the model "
+                    "(recomputed by the harness with the stdlib `re`)",
+                    "`pickle` is modelled, not verified: whether a live value pickles is an input of the model (the oracle "
+                    "tries pickle.dumps itself); load(dump(v)) == v is assumed for picklable values",
+                    "the kernel's rule for the mode of a file created by open(O_CREAT) (mode & ~umask; an existing file keeps its "
+                    "mode) is modelled; the real mode is checked with os.stat on the real file system",
+                    "str.isidentifier is modelled for ASCII names only; int(str) for ASCII digits only",
+                    "not modelled: _validate_filename, _get_frame_metadata's best-effort lookups (module name, source line, "
+                    "function object are opaque inputs; the oracle checks module name and source line against the live frame)"]
+    assumptions = ["C17_filter_partial: D7 does not strike (d7free: a passed include list keeps at least one valid name) and "
+                   "local names are identifiers (violated by the implicit '.0' of generator expressions, known finding C17-D3)",
+                   "selectors denote frames of the chain Python displays; `raise X from None` contexts are followed by the "
+                   "code as found (known finding C17-D2)",
+                   "a pre-existing output file keeps its mode (stated exclusion of the 0644 claim)"]
+
+    @staticmethod
+    def _fam_d7(case, fl):
+        if fl.get("what") != "a variable that must be absent was saved" or fl.get("why") != "not included":
+            return False
+        import keyword
+        v = case.get("variables")
+        if not v:
+            return False
+        if isinstance(v, str):
+            names = [x.strip() for x in v.split(",")] if case.get("utility") != "function" else [v.strip()]
+        elif isinstance(v, (list, tuple)) and all(isinstance(x, str) for x in v):
+            names = list(v)
+        else:
+            return False
+        return all((not n.isidentifier()) or keyword.iskeyword(n) for n in names)
+
+    @staticmethod
+    def _fam_suppressed(case, fl):
+        return (fl.get("what") == "frames of a suppressed context (raise ... from None) were selected"
+                and fl.get("suppressed") is True)
+
+    @staticmethod
+    def _fam_nonident(case, fl):
+        n = fl.get("name")
+        if not isinstance(n, str) or n.isidentifier():
+            return False
+        if fl.get("what") == "a retained picklable variable is missing":
+            return n in (fl.get("include") or [])
+        if fl.get("what") == "a variable that must be absent was saved":
+            return fl.get("why") == "excluded"
+        return False
+
+    families = {"d7_include_list_validated_to_empty": _fam_d7.__func__,
+                "suppressed_context_followed": _fam_suppressed.__func__,
+                "filter_names_a_nonidentifier_local": _fam_nonident.__func__}
 
     _root = None
 
@@ -400,6 +460,72 @@ class C17(Prop):
                     umask=rng.choice([0o022, 0o022, 0o077, 0o027, 0o002, 0, 0o177, 0o777, 0o137]),
                     preexist=(rng.choice([0o600, 0o666, 0o640]) if rng.random() < 0.08 else None),
                     unpick=unpick, flip=flip, qseed=rng.randint(0, 10 ** 6))
+
+    EX_HEADER = "import os as _os\nfrom gen_c17 import Tog, P, BadReduce, Ctx, AppError, REG as _REG\n\n"
+    EX_FILES = {
+        "pkg/alpha.py": EX_HEADER + (
+            "def load(_i):\n    data = [1, 2]\n    secret = 'p@ss'\n    try:\n        _REG['s1'](1)\n"
+            "    except Exception:\n        h = 'ctx'\n        raise KeyError('ctx')\n_REG['s0'] = load\n\n"
+            "def rec(_i, n=2):\n    level = n\n    if n > 0:\n        return rec(_i, n - 1)\n    return _REG['s2'](2)\n"
+            "_REG['s1'] = rec\n"),
+        "lib/alpha.py": EX_HEADER + (
+            "class K:\n    def __init__(self):\n        self.attr = 1\n    def __eq__(self, o):\n        return type(o) is type(self)\n"
+            "    def __hash__(self):\n        return 1\n    def __repr__(self):\n        return 'K()'\n"
+            "    def run(self, _i):\n        x = Tog(0, 'v')\n        y = (lambda: 0)\n        __dd = 5\n        return _REG['s3'](3)\n"
+            "_REG['s2'] = K().run\n\n"
+            "def load(_i):\n    total = P(3)\n    secret = Tog(1, 0)\n    raise ValueError('boom')\n_REG['s3'] = load\n"),
+    }
+    EX_SIMPLE = {"gamma.py": EX_HEADER + "def run(_i):\n    x = 1\n    secret = 'p@ss'\n    raise ValueError('boom')\n_REG['s0'] = run\n"}
+
+    def _mk(self, files, frames=None, variables=None, exclude_variables=None, utility="function", umask=0o022,
+            preexist=None, unpick=(), flip=None, qseed=1, n_tog=0):
+        return dict(prog=dict(files=dict(files), entry="direct", main=None, n_tog=n_tog), utility=utility, frames=frames,
+                    variables=variables, exclude_variables=exclude_variables, umask=umask, preexist=preexist,
+                    unpick=list(unpick), flip=flip, qseed=qseed)
+
+    def exhaustive_cases(self, tier, rng):
+        out = []
+        prog = dict(files=self.EX_FILES, entry="direct", main=None, n_tog=2)
+        fr = gen_c17.dry_frames(prog)
+        pats = []
+        for rel, line, name, qual, _ in fr:
+            base = os.path.basename(rel)
+            for p in ("%s::" % rel, "%s:%d:" % (base, line), "/%s::%s" % (rel.split("/")[0], name),
+                      "%s:%d:%s" % (rel, line, qual), ".::%s" % qual):
+                if p not in pats:
+                    pats.append(p)
+        pats += ["nomatch::", "alpha.py:1:", "(::"]
+        sels = [None] + list(range(-1, len(fr) + 3)) + [" 3 ", "+2", "0_2"] + pats
+        sels += [[p] for p in pats[:4]] + [pats[i:i + 2] for i in range(0, len(pats) - 1, 3)]
+        ranges = [a + ".." + b for a in pats for b in pats] + [a + ".." for a in pats]
+        if tier != "thorough":
+            ranges = rng.sample(ranges, 70)
+        sels += ranges
+        for s_ in sels:
+            out.append(self._mk(self.EX_FILES, frames=s_, n_tog=2, qseed=len(out), flip=(len(out) % 2)))
+            if isinstance(s_, str) or s_ is None:
+                out.append(self._mk(self.EX_FILES, frames=(",".join(s_) if isinstance(s_, list) else s_), utility="script",
+                                    n_tog=2, qseed=len(out)))
+        filt = [None, "x", "secret", ["x", "secret"], ["1bad"], ["x", "1bad"], [], "", ["class"], ["nosuch"], " x ", "x,secret",
+                ["__dd"], ["_i"], 5, ["x", 5]]
+        for f_ in filt:
+            for u in ("function", "script"):
+                if u == "script" and not (f_ is None or isinstance(f_, str)):
+                    continue
+                out.append(self._mk(self.EX_FILES, frames=9, variables=f_, utility=u, n_tog=2, qseed=len(out), unpick=[0]))
+                out.append(self._mk(self.EX_FILES, frames=9, exclude_variables=f_, utility=u, n_tog=2, qseed=len(out), flip=1))
+        out.append(self._mk(self.EX_FILES, frames=9, variables=["x"], exclude_variables=["secret"], n_tog=2))
+        out.append(self._mk(self.EX_FILES, frames=9, variables=["x"], exclude_variables=[], n_tog=2))
+        umasks = list(range(512)) if tier == "thorough" else sorted(set(rng.sample(range(512), 20) + [0, 0o777, 0o022, 0o077]))
+        for u in umasks:
+            out.append(self._mk(self.EX_SIMPLE, umask=u, utility=("function", "script", "bin")[u % 3], qseed=u))
+        for s_ in (None, 3, 0, "gamma::", "gamma::..", "gamma::..gamma::", ["gamma::"], "(::"):
+            c = self._mk(self.EX_SIMPLE, frames=s_, qseed=len(out))
+            c["prog"]["entry"] = "unraised"          # an exception without traceback
+            out.append(c)
+        for m in (0o600, 0o666, 0o400 | 0o200, 0o755):
+            out.append(self._mk(self.EX_SIMPLE, umask=0o027, preexist=m))
+        return out
 
     # -- implementation --------------------------------------------------------------------
     def _quiet(self):
@@ -958,10 +1084,10 @@ class C17(Prop):
                     raise ValueError("outer") from None
             except ValueError as e:
                 n = len(sf._get_all_frames_from_exception_obj(e))
-            d29 = n == 1
+            d2 = n == 1
         except Exception:
-            d29 = False
-        C17._cfg = dict(d7=bool(d7), d29=bool(d29))
+            d2 = False
+        C17._cfg = dict(d7=bool(d7), d2=bool(d2))
         return C17._cfg
 
     # -- model -------------------------------------------------------------------------------
@@ -1038,7 +1164,7 @@ class C17(Prop):
                 rx.append([r, None])
         queries = [r["q"] for r in obs.get("reader", [])]
         excf = [[f, (saved.get("exc_text") or {}).get(f, "")] for f in EXC_FIELDS]
-        req = dict(op="save", cfg=obs.get("cfg") or dict(d7=False, d29=False),
+        req = dict(op="save", cfg=obs.get("cfg") or dict(d7=False, d2=False),
                    util="function" if util == "function" else "script",
                    frames=self._arg_json(case["frames"], "frames"), vars=self._arg_json(case["variables"], "vars"),
                    excl=self._arg_json(case["exclude_variables"], "vars"), exc=exc_json(graph), rx=rx,
